@@ -70,3 +70,62 @@ if __name__ == "__main__":
         print(json.dumps(verify(sys.argv[2], baseline="--no-baseline" not in sys.argv), indent=1))
     elif sys.argv[1] == "detect":
         print(json.dumps(detect(sys.argv[2], sys.argv[3:]), indent=1))
+
+
+def import_all(src="/tmp/mut"):
+    """copy verified mutations from the agents' output dirs into /verif/seeded/<ID>-m<k>/"""
+    import glob, re
+    for d in sorted(glob.glob(os.path.join(src, "C??", "m?"))):
+        pid = os.path.basename(os.path.dirname(d))
+        k = os.path.basename(d)
+        vf = os.path.join(src, "verify_%s_%s.json" % (pid, k))
+        dst = os.path.join(HERE, "seeded", "%s-%s" % (pid, k))
+        os.makedirs(dst, exist_ok=True)
+        for fn in ("patch.diff", "demo.py", "notes.md", "patch.orig.diff"):
+            if os.path.exists(os.path.join(d, fn)):
+                shutil.copy(os.path.join(d, fn), os.path.join(dst, fn))
+        ver = {}
+        if os.path.exists(vf):
+            try:
+                ver = json.load(open(vf))
+            except Exception:
+                ver = {}
+        notes = open(os.path.join(d, "notes.md")).read() if os.path.exists(os.path.join(d, "notes.md")) else ""
+        meta = {"property": pid, "source": "independent sub-agent given only the property text and a scratch worktree",
+                "rebased": os.path.exists(os.path.join(d, "patch.orig.diff")),
+                "needs_to_manifest": (re.search(r"(?is)(needs?|manifest)[^\n]*\n(.{0,600})", notes) or [None, None, ""])[2].strip()[:600],
+                "verified_by": "tools_seed.py verify (scratch worktree of /repo HEAD: demo passes clean, patch applies, extension rebuilt, "
+                               "demo fails mutated, 492-test baseline passes mutated)",
+                "verify_result": {k2: v for k2, v in ver.items() if not k2.endswith("tail")}}
+        json.dump(meta, open(os.path.join(dst, "meta.json"), "w"), indent=1)
+    print("imported", len(glob.glob(os.path.join(HERE, "seeded", "*", "patch.diff"))))
+
+
+def matrix(ids=None, tier="quick"):
+    import glob
+    rows = {}
+    for d in sorted(glob.glob(os.path.join(HERE, "seeded", "*-m*"))):
+        name = os.path.basename(d)
+        pid = name.split("-")[0]
+        if ids and pid not in ids:
+            continue
+        try:
+            r = detect(d, [pid], tier)
+        except AssertionError as e:
+            rows[name] = {"error": str(e)[:200]}
+            continue
+        rows[name] = {"check": pid, "rc": r[pid]["rc"], "wall": r[pid]["wall"],
+                      "causes": [l.strip()[:160] for l in r[pid]["lines"] if l.strip().startswith("cause=")][:3]}
+        print(name, rows[name]["rc"], rows[name]["causes"][:1], flush=True)
+        meta_p = os.path.join(d, "meta.json")
+        meta = json.load(open(meta_p))
+        meta["detected_by"] = {"check": pid, "tier": tier, "exit": r[pid]["rc"], "causes": rows[name]["causes"]}
+        json.dump(meta, open(meta_p, "w"), indent=1)
+    json.dump(rows, open(os.path.join(HERE, "seeded", "MATRIX.json"), "w"), indent=1)
+    return rows
+
+
+if __name__ == "__main__" and sys.argv[1] == "import":
+    import_all()
+if __name__ == "__main__" and sys.argv[1] == "matrix":
+    matrix(sys.argv[2:] or None)
